@@ -73,9 +73,12 @@ class Label(HtmlControl):
     )
 
   def _to_html(self, **kwargs) -> Html:
+    text = self.text
+    if isinstance(text, str):
+      text = Html.escape(text)
     text_elem = Html.element(
         'a' if self.link is not None else 'span',
-        [self.text],
+        [text],
         id=self.element_id(),
         href=self.link,
         css_classes=['label'] + self.css_classes,
